@@ -104,6 +104,9 @@ class Driver:
             arg = (op['a'],)
         elif form == 'gen':
             arg = (x for x in [op['a']])
+        elif form == 'nested':
+            # an iterable inside a list: [generator of addresses, address]
+            arg = [(x for x in [op['a']]), op['a']]
         elif form == 'nosheet':
             arg = op['a'].rsplit('!', 1)[1]
         elif form == 'obj':
@@ -121,6 +124,9 @@ class Driver:
             r = model.evaluate(arg, **kwargs)
             if form in ('list', 'tuple', 'gen'):
                 r = r[0]
+            elif form == 'nested':
+                r = r[0]                                  # what the generator gave: (value,)
+                r = r[0] if len(r) == 1 else r
             return r
         return self.actor.call(outcome_of, run)
 
@@ -185,6 +191,19 @@ class Driver:
         if 'exc' in out:
             out['during'] = 'from_file'
         return out
+
+    def op_validate(self, op):
+        """validate_calcs() of everything: a debugging aid that evaluates every formula and
+        swallows what it cannot evaluate; the model is used on afterwards"""
+        model = self.model
+
+        def run():
+            import contextlib
+            import io
+            with contextlib.redirect_stdout(io.StringIO()):
+                model.validate_calcs()
+            return None
+        return self.actor.call(outcome_of, run)
 
     def op_recalc(self, op):
         model = self.model
